@@ -547,8 +547,12 @@ func (s *Subscription) removeReference(rid string) {
 	ref := s.refs[rid]
 	ref.count--
 	if ref.count == 0 {
-		s.c.Unsubscribe(ref.sub, false, s.IsSent(), 1, true)
+		// Remove the reference before unsubscribing, so that the removed
+		// edge is not traversed when trying to delete the referenced
+		// subscription. Otherwise a reference cycle through s is counted
+		// down twice and the unreferenced subscription is kept as sent.
 		delete(s.refs, rid)
+		s.c.Unsubscribe(ref.sub, false, s.IsSent(), 1, true)
 	}
 }
 
